@@ -59,7 +59,8 @@ def corpus_locals(src, cfg):
 
 
 def ident_sub(text, old, new):
-    return re.sub(r"(?<![A-Za-z0-9_@$])%s(?![A-Za-z0-9_])" % re.escape(old), new, text)
+    # an instance variable and its attr_reader/accessor share one name: `@name` is renamed together with `name`
+    return re.sub(r"(?<![A-Za-z0-9_$@])(@?)%s(?![A-Za-z0-9_])" % re.escape(old), lambda m: m.group(1) + new, text)
 
 
 class Check(Prop):
@@ -125,7 +126,10 @@ class Check(Prop):
                 return {"src": rb.render(p["tree"]), "old": "", "new": "x", "kind": "local"}
             kind = kinds[draw(st.integers(0, len(kinds) - 1))]
             old = names[kind][draw(st.integers(0, len(names[kind]) - 1))]
-            new = draw(upper if kind in ("class", "module") else lower)
+            if kind == "const":
+                new = draw(st.from_regex(r"[A-Z][A-Z0-9_]{1,10}", fullmatch=True))
+            else:
+                new = draw(upper if kind in ("class", "module") else lower)
             return {"src": rb.render(p["tree"]), "old": old, "new": new, "kind": kind}
 
         @st.composite
@@ -148,7 +152,7 @@ class Check(Prop):
         if (not old or new in KW or new in self.cfg or new.rstrip("?!") in KW or re.search(r"(?<![A-Za-z0-9_])%s(?![A-Za-z0-9_])" % re.escape(new), src)
                 or new == old or new.endswith("_") and False):
             return Verdict(None, labels + ["precondition"], False, key, discard="precondition")
-        if kind in ("class", "module") and not re.match(r"[A-Z]", new):
+        if kind in ("class", "module", "const") and not re.match(r"[A-Z]", new):
             return Verdict(None, labels + ["precondition"], False, key, discard="precondition")
         src2 = ident_sub(src, old, new)
         occ = len(re.findall(r"(?<![A-Za-z0-9_@$])%s(?![A-Za-z0-9_])" % re.escape(old), src))
